@@ -198,12 +198,12 @@ prop('C13', units=['dg'], level='proof',
                   'FileRange::new / Diagnostic::new are plain constructors; FileId obeys the HashMap key model'])
 
 prop('C17', units=['syn', 'dg', 'idx', 'ut'], level='proof',
-     relevant=r'(^unit::parse$|parser::ParserBase::|parser::Parser::finish|diagnostics::|IndexCtx::error$|utils::identifier$|utils::range_excluding_trivia$)',
+     relevant=r'(^unit::parse$|parser::ParserBase::|parser::Parser::finish|diagnostics::|IndexCtx::error$|IndexCtx::push_file$|IndexCtx::pop_file$|Include::index|SourceFile::index|utils::identifier$|utils::range_excluding_trivia$)',
      explanation=('Partial, along the three mechanisms the property is anchored in. (1) Ranges of syntax diagnostics, end to end: unit SYN proves that every SyntaxError parse() returns has a '
                   'range inside the text on char boundaries with start <= end (ParserBase::error records current_range, proved to lie on token boundaries; every ParserBase method that can touch the error list carries the clause that the recorded errors stay well-formed); unit DG proves that the diagnostic '
                   'built from it carries exactly that range and the file whose parse produced it. (2) Pairing with the file on top of the include stack: unit IDX proves that IndexCtx::error '
                   'records the given range with file_trace.last(), keeping earlier diagnostics, and that utils::identifier returns the identifier token\'s own text and range paired with that file '
-                  '(the source of every define_loc / reference_loc). (3) Trimming of trailing trivia: unit UT proves that utils::range_excluding_trivia returns [node start, end of the node\'s last '
+                  '(the source of every define_loc / reference_loc), and that the include stack obeys its discipline - push_file puts an entered file on top and leaves the stack alone otherwise, pop_file removes the top, and every Indexable::index impl (Include::index above all) returns with the stack it was given - so that the top of the stack is the file whose tree is being walked. (3) Trimming of trailing trivia: unit UT proves that utils::range_excluding_trivia returns [node start, end of the node\'s last '
                   'non-trivia token], start <= end, inside the node, over an assumed model of rowan\'s token sequence, when the node contains a non-trivia token (true at both call sites: statement '
                   'nodes start with their keyword, an include path is a string token; assumed). NOT decided: that ranges read off rowan nodes (text_range()) lie in the text - that is rowan\'s '
                   'offset arithmetic over the tree whose text C01 proves equal to the input; that the node handed to a conversion belongs to the tree of the file on top of the include stack '
